@@ -177,3 +177,8 @@ func VerifChooseDAG(n, maxPar int) ([]dvid.VersionID, func(a, b int) bool) {
 	d.vInstall(nil)
 	return d.vids, d.anc
 }
+
+// VerifSetCompression sets the serialization compression of a data instance (as a config of "Compression" does).
+func VerifSetCompression(d *Data, format dvid.CompressionFormat) {
+	d.compression, _ = dvid.NewCompression(format, dvid.DefaultCompression)
+}
